@@ -121,6 +121,10 @@ func verifDo(req *http.Request) (*http.Response, error) {
 	emptyErrs := vEmptyErrs
 	for i, r := range ins {
 		out[i] = map[string]interface{}{"data": map[string]interface{}{"tag": r.Query}}
+		if vEmptyData && r.Query == vTags[0] {
+			// a legal healthy answer: every root field of the sub-request was skipped
+			out[i] = map[string]interface{}{"data": map[string]interface{}{}}
+		}
 		if emptyErrs {
 			out[i]["errors"] = []interface{}{} // legal: a healthy answer with an empty errors list
 		}
@@ -130,6 +134,7 @@ func verifDo(req *http.Request) (*http.Response, error) {
 }
 
 var vEmptyErrs bool
+var vEmptyData bool // the first request is answered with {"data": {}}
 var vNoFail bool // the transport is healthy from here on
 var vFailKind int // how a failing call fails: transport error, 502 with a well-formed body, GraphQL errors with / without a message
 var vSentMultipart = make([]bool, len(vTags))
@@ -154,6 +159,7 @@ func verifNewCancel() (chan struct{}, func()) {
 func VerifQuery() {
 	vEmptyErrs = verifBool("emptyerrors") // every healthy answer of this run carries "errors": [] or none does
 	vFailKind = verifChoice("failkind", 4)
+	vEmptyData = verifBool("emptydata")
 	N := verifChoice("N", verifParam("nmax", 3)+1)
 	m := verifInt("m", 1, verifParam("mmax", 2))
 	q := &MultiOpQueryer{url: "u", client: &http.Client{Transport: vNativeTransport{verifDo}}, maxBatchSize: m}
@@ -192,6 +198,10 @@ func VerifQuery() {
 	verifAssert(len(res) == N, "exactly N results")
 	for i := 0; i < N; i++ {
 		verifAssert(seen[i] == 1, "every request is sent in exactly one call")
+		if vEmptyData && i == 0 {
+			verifAssert(res[i] != nil && len(res[i]) == 0, "an empty data object is an answer, not a failure")
+			continue
+		}
 		verifAssert(res[i] != nil && res[i]["tag"] == vTags[i], "result i answers request i")
 	}
 	if ncalls >= 2 {
